@@ -525,6 +525,29 @@ theorem trend_history_eq_fresh (d0 : Nat) (b0 : Bool) (y0 : List Val) (o0 : Int)
         unfold Trend.fitPredict
         simp [hl, hc, hn, bind, Except.bind]
 
+/-! ## several objects alive at once (Model/History.lean, `World`)
+
+Whatever calls are made on OTHER objects of the class in between — constructed with the same, default or other parameters,
+fitted on other data, asked for forecasts — the answers an object gives and the state it ends in are those of the calls
+made on that object alone.  (The harness interleaves a second object between fit and predict and between two predicts of the
+case's object and compares with the object alone and with the textbook value; a static scan looks for class- or module-level
+objects read by fit / predict.) -/
+
+theorem other_object_does_not_interfere_naive (w : Nat → NObj) (ops : List (Nat × NOp)) (i : Nat) :
+    ((World.run naiveMachine w ops).1 i, ((World.run naiveMachine w ops).2.filter (fun r => r.1 == i)).map (·.2))
+      = World.runLocal naiveMachine (w i) ((ops.filter (fun r => r.1 == i)).map (·.2)) :=
+  Lem.World.run_eq_runLocal naiveMachine w ops i
+
+theorem other_object_does_not_interfere_trend (w : Nat → TObj) (ops : List (Nat × TOp)) (i : Nat) :
+    ((World.run trendMachine w ops).1 i, ((World.run trendMachine w ops).2.filter (fun r => r.1 == i)).map (·.2))
+      = World.runLocal trendMachine (w i) ((ops.filter (fun r => r.1 == i)).map (·.2)) :=
+  Lem.World.run_eq_runLocal trendMachine w ops i
+
+/-- the seeded scenario: `a.fit(y1); b.fit(y2); a.predict(fh)` with equal parameters — `a` answers from `y1` -/
+example : ((World.run trendMachine (fun _ => TObj.new 1 true)
+      [(0, .fit [some 0, some 1, some 2] 0), (1, .fit [some 5, some 3, some 1] 0), (0, .predict (.ints [1, 2]) true)]).2.filter
+        (fun r => r.1 == 0)).map (·.2) = [.ok [], .ok [(3, some 3), (4, some 4)]] := by decide +kernel
+
 /-! ## options handed to the wrapped statsmodels model (Model/Adapter.lean; tied to the code by recording the
 keyword arguments the statsmodels constructor / fit actually receive) -/
 
